@@ -46,6 +46,7 @@ package sctp
 //@   safety C03
 //@ func chunkInitCommon.unmarshal
 //@   requires#len len(raw) >= 16
+//@   at return assert#no-parameter-left-undecoded{C12} result != nil || remaining < initOptionalVarHeaderLength
 //@   loop 1 invariant#offset offset >= 16 && offset+remaining == len(raw)
 //@   tags C03
 //@   safety C03
